@@ -18,6 +18,7 @@ FORMATS = {"FORMAT_FA": "fasta", "FORMAT_MSF": "msf", "FORMAT_CLU": "clu"}
 
 def describe(ck):
     ck.rule("R06i", "the effect summary of kalign_write_msa shows no store into rows, names or gap counts of the msa it writes")
+    ck.rule("R06l", "a reader that grows a sequence record keeps the gap counts it has already counted: the clearing of the re-allocated counters starts behind the slots in use (= R05s)")
     ck.rule("R06k", "every path to a call of kalign_write_msa runs something that can set ALN_STATUS_FINAL first: a function that writes an msa without being able to render it can only fail")
     ck.rule("R06j", "every string write_msa_msf formats into a line is a literal, a sequence name, a strftime date without '/' or the base name from tlfilename - not a caller-supplied path")
     ck.rule("R06h", "the test that makes a block line the next row of read_clu / read_msf is equivalent to `first character is not a blank` for every byte value")
@@ -581,6 +582,8 @@ def run(ck, progs):
         ck.attempt(r06i, ck, prog)
         ck.attempt(r06j, ck, prog)
         ck.attempt(r06k, ck, prog)
+        from . import c05
+        ck.borrow(c05.r05s, prog, "R06l", ("R05s",))
         from . import c15
         before = len(ck.instances)
         ck.attempt(c15.r15e, ck, prog)
